@@ -3,6 +3,7 @@ package c10
 import (
 	"fmt"
 	"strings"
+	"time"
 
 	"verif/harness/fw"
 	"verif/harness/rawpeer"
@@ -216,6 +217,6 @@ func runFinalizers(ctx *fw.Ctx, rep *fw.Report) {
 			rep.NotExhaustive("tier budget exhausted before finalizer history " + strings.Join(h, ","))
 			return
 		}
-		fw.RunScenario(ctx, rep, finalizerScenario(h), fw.SchedOpts{DefaultSchedule: true, NoReplayCheck: true, Deviations: -1, ForcePB: -1, SkipDPOR: true, Fallback: []int{0}})
+		fw.RunScenario(ctx, rep, finalizerScenario(h), fw.SchedOpts{Budget: 20 * time.Second, DefaultSchedule: true, NoReplayCheck: true, Deviations: -1, ForcePB: -1, SkipDPOR: true, Fallback: []int{0}})
 	}
 }
